@@ -57,6 +57,16 @@
 // both). `hdrparam: h`: the http.Header parameter h the function mutates is a loop-carriable local of kind Hdr
 // (Rv.Headers.Hdr) initialised from its binder and is the result; `h.Values(k)` = values h (canonKey k), the statement
 // `h.Del(k)` = `h := del h (canonKey k)` (http.Header canonicalises the name it is given); other mutations are refused.
+//
+// Cache-Control parser (added): a struct of the package mapped by `structs` held BY VALUE in a local is a Lean record
+// (kind "S:<Lean type>", loop-carriable); `x.f = v` on it is the record update `{ x with f := v }` (through a pointer:
+// refused). The VALUE variable of a range loop over a list of strings may be assigned in the body (go.mod >= 1.22: a
+// per-iteration variable; a `let`, never carried). Names declared in a loop body are local to one iteration even when
+// assigned later. `after, ok := strings.CutPrefix(s, p)` = Rv.cutPrefix, both results exact ((s, false) when absent).
+// `v, err := strconv.ParseInt(s, 10, 64)` = Rv.CacheControl.parseInt64 (TRUSTED transcriptions), accepted ONLY when
+// immediately followed by `if err != nil { ...terminating... }` whose block does not read v (the value Go returns
+// beside a non-nil error is not modelled): a match whose `none` arm is that block. time.Nanosecond .. time.Hour are
+// their values in ns (also as constant divisors).
 package main
 
 import (
@@ -359,6 +369,9 @@ type loopCtx struct {
 }
 
 func leanTypeOfKind(k string) string {
+	if strings.HasPrefix(k, "S:") { // a struct of the package mapped to a Lean structure by the spec
+		return k[2:]
+	}
 	switch k {
 	case kStr:
 		return "Str"
@@ -680,6 +693,9 @@ func (t *tr) expr(e ast.Expr) comp {
 		if show(x) == "math.MaxInt64" && t.imports("math") && !t.locals["math"] {
 			return pure("(9223372036854775807 : Int)")
 		}
+		if v, ok := timeUnits[show(x)]; ok && t.imports("time") && !t.locals["time"] && t.plean["time"] == "" {
+			return pure(fmt.Sprintf("(%d : Int)", v)) // a time.Duration constant, in nanoseconds
+		}
 		if t.rootedAtVar(x.X) {
 			// a field path rooted at a local or a parameter. When the Go type of the base is a struct of the package
 			// the path is resolved against its declaration (a field promoted through an embedded struct gets the
@@ -710,6 +726,89 @@ func (t *tr) expr(e ast.Expr) comp {
 	}
 	fail("%s (%s): cannot translate expression `%s` (canonical form `%s`): no leaf rule and not in the supported subset", t.spec.Lean, t.spec.File, show(e), t.canon(e))
 	return comp{}
+}
+
+// after, ok := strings.CutPrefix(s, p)  and  v, err := strconv.ParseInt(s, 10, 64)  (TRUSTED meanings: Rv.cutPrefix and
+// Rv.CacheControl.parseInt64, the model's transcriptions of the two standard-library functions).
+//   - CutPrefix returns (s, false) when the prefix is absent: both results are translated exactly.
+//   - ParseInt returns a value beside a non-nil error (0, or the nearest int64 on a range error) that the transcription
+//     does not give: the statement is accepted only when IMMEDIATELY followed by `if err != nil { ...terminating... }`
+//     whose block does not read the value, so that the value is in scope only where err == nil.
+func (t *tr) twoResultLib(x *ast.AssignStmt, rest []ast.Stmt) (string, bool) {
+	call, ok := x.Rhs[0].(*ast.CallExpr)
+	if !ok {
+		return "", false
+	}
+	fn := show(call.Fun)
+	if fn != "strings.CutPrefix" && fn != "strconv.ParseInt" {
+		return "", false
+	}
+	local := strings.SplitN(fn, ".", 2)[0]
+	if !t.importsAs(local, local) || t.locals[local] || t.plean[local] != "" {
+		return "", false
+	}
+	where := fmt.Sprintf("%s (%s): `%s`", t.spec.Lean, t.spec.File, show(x))
+	a, okA := x.Lhs[0].(*ast.Ident)
+	b, okB := x.Lhs[1].(*ast.Ident)
+	if !okA || !okB || a.Name == "_" || b.Name == "_" {
+		fail("%s: both results must be named", where)
+	}
+	t.checkNoShadow([]ast.Stmt{x})
+	if t.plean[a.Name] != "" || t.plean[b.Name] != "" {
+		fail("%s: a result shadows a parameter", where)
+	}
+	strArg := func(e ast.Expr) comp {
+		if _, isLit := e.(*ast.BasicLit); !isLit && t.kindOf(e) != kStr {
+			fail("%s: the argument `%s` is not known to be a string of kind Str", where, show(e))
+		}
+		return t.strOperand(e)
+	}
+	if fn == "strings.CutPrefix" {
+		if len(call.Args) != 2 {
+			fail("%s: two arguments expected", where)
+		}
+		c := join2(strArg(call.Args[0]), strArg(call.Args[1]), func(p, q string) string {
+			return "(match Rv.cutPrefix " + p + " " + q + " with | some a_ => (a_, true) | none => (" + p + ", false))"
+		})
+		t.declareK(a.Name, kStr)
+		t.declareK(b.Name, kBool)
+		return c.andThen(func(v string) string {
+			return "match " + v + " with\n  | (" + mangle(a.Name) + ", " + mangle(b.Name) + ") =>\n  " + t.stmts(rest)
+		}), true
+	}
+	// strconv.ParseInt(s, 10, 64)
+	if len(call.Args) != 3 || show(call.Args[1]) != "10" || show(call.Args[2]) != "64" {
+		fail("%s: only strconv.ParseInt(s, 10, 64) is supported", where)
+	}
+	if len(rest) == 0 {
+		fail("%s: must be followed by `if %s != nil { ... }`", where, b.Name)
+	}
+	chk, okI := rest[0].(*ast.IfStmt)
+	if !okI || chk.Init != nil || chk.Else != nil || show(chk.Cond) != b.Name+" != nil" || t.locals["nil"] || !terminates(chk.Body.List) {
+		fail("%s: must be immediately followed by `if %s != nil { ... }` without else whose block ends in return / continue / break (the value beside a non-nil error is not modelled)", where, b.Name)
+	}
+	readsVal := false
+	ast.Inspect(chk.Body, func(n ast.Node) bool {
+		if id, ok := n.(*ast.Ident); ok && id.Name == a.Name {
+			readsVal = true
+		}
+		return true
+	})
+	if readsVal {
+		fail("%s: the error block reads `%s`, the value beside a non-nil error", where, a.Name)
+	}
+	arg := strArg(call.Args[0])
+	saved := t.snapshot()
+	t.declareK(b.Name, kBool) // an error as Bool: true = nil
+	t.checkNoShadow(chk.Body.List)
+	errS := t.stmts(append([]ast.Stmt{}, chk.Body.List...))
+	t.restore(saved)
+	t.declareK(a.Name, kInt)
+	t.declareK(b.Name, kBool)
+	okS := t.stmts(append([]ast.Stmt{}, rest[1:]...))
+	return arg.andThen(func(v string) string {
+		return "match Rv.CacheControl.parseInt64 " + v + " with\n  | none =>\n  (let " + mangle(b.Name) + " := false\n  " + errS + ")\n  | some " + mangle(a.Name) + " =>\n  (let " + mangle(b.Name) + " := true\n  " + okS + ")"
+	}), true
 }
 
 // library functions on strings of kind Str, mapped onto the model's transcriptions of the Go standard library. TRUSTED
@@ -845,6 +944,21 @@ func (t *tr) strLibCall(fn string, x *ast.CallExpr) (comp, bool) {
 		return c, true
 	}
 	return comp{}, false
+}
+
+// does the module say go >= 1.22 (per-iteration loop variables)?
+func (t *tr) goVersionAtLeast122() bool {
+	raw, err := os.ReadFile(filepath.Join(repoRoot, "go.mod"))
+	if err != nil {
+		return false
+	}
+	m := regexp.MustCompile(`(?m)^go\s+(\d+)\.(\d+)`).FindStringSubmatch(string(raw))
+	if m == nil {
+		return false
+	}
+	maj, _ := strconv.Atoi(m[1])
+	min, _ := strconv.Atoi(m[2])
+	return maj > 1 || (maj == 1 && min >= 22)
 }
 
 // is the expression a variable (local or parameter) or a field path below one?
@@ -1194,6 +1308,9 @@ func (t *tr) kindOf(e ast.Expr) string {
 		if t.spec.StrMode && show(x.Type) == "[]string" {
 			return kStrs
 		}
+		if l, ok := t.spec.Structs[show(x.Type)]; ok && t.pkg.structs[show(x.Type)] != nil {
+			return "S:" + l
+		}
 	case *ast.SliceExpr:
 		if t.kindOf(x.X) == kStr {
 			return kStr
@@ -1316,7 +1433,18 @@ func (t *tr) nonZeroConst(e ast.Expr) bool {
 	return c != nil && *c != 0
 }
 
+var timeUnits = map[string]int64{"time.Nanosecond": 1, "time.Microsecond": 1000, "time.Millisecond": 1000000, "time.Second": 1000000000,
+	"time.Minute": 60000000000, "time.Hour": 3600000000000}
+
 func (t *tr) tryConstInt(e ast.Expr) *int64 {
+	if sel, ok := e.(*ast.SelectorExpr); ok {
+		if v, ok := timeUnits[show(sel)]; ok && t.imports("time") && !t.locals["time"] {
+			return &v
+		}
+	}
+	if c, ok := e.(*ast.CallExpr); ok && len(c.Args) == 1 && (show(c.Fun) == "int64" || show(c.Fun) == "int") && !t.locals[show(c.Fun)] {
+		return t.tryConstInt(c.Args[0]) // a conversion of a constant
+	}
 	switch x := e.(type) {
 	case *ast.BasicLit:
 		if x.Kind == token.INT {
@@ -1886,6 +2014,32 @@ func (t *tr) stmts(list []ast.Stmt) string {
 			return t.stmts(rest)
 		}
 		if len(x.Lhs) == 1 && len(x.Rhs) == 1 {
+			if sel, isSel := x.Lhs[0].(*ast.SelectorExpr); isSel && x.Tok == token.ASSIGN {
+				// x.f = v on a local variable holding a struct of the package (a VALUE, not a pointer): a record update
+				if sid, ok := sel.X.(*ast.Ident); ok && t.locals[sid.Name] && strings.HasPrefix(t.kinds[sid.Name], "S:") {
+					st := t.structOf(t.gotypes[sid.Name])
+					if _, isPtr := t.gotypes[sid.Name].(*ast.StarExpr); isPtr || st == nil {
+						fail("%s (%s): `%s`: the variable is not known to hold a struct value of the package", t.spec.Lean, t.spec.File, show(x))
+					}
+					direct := false
+					for _, f := range st.Fields.List {
+						for _, nm := range f.Names {
+							if nm.Name == sel.Sel.Name {
+								direct = true
+							}
+						}
+					}
+					if !direct {
+						fail("%s (%s): `%s`: %s is not a (direct) field of the struct", t.spec.Lean, t.spec.File, show(x), sel.Sel.Name)
+					}
+					c := t.expr(x.Rhs[0])
+					t.used[sid.Name] = true
+					v := mangle(sid.Name)
+					return c.andThen(func(val string) string {
+						return "let " + v + " := { " + v + " with " + mangle(lowerFirst(sel.Sel.Name)) + " := " + val + " }\n  " + t.stmts(rest)
+					})
+				}
+			}
 			id, ok := x.Lhs[0].(*ast.Ident)
 			if !ok {
 				fail("%s (%s): assignment to `%s` (only local variables can be assigned)", t.spec.Lean, t.spec.File, show(x.Lhs[0]))
@@ -1915,6 +2069,11 @@ func (t *tr) stmts(list []ast.Stmt) string {
 				return t.stmts(rest)
 			}
 			return c.andThen(func(v string) string { return "let " + mangle(id.Name) + " := " + v + "\n  " + t.stmts(rest) })
+		}
+		if len(x.Lhs) == 2 && len(x.Rhs) == 1 && x.Tok == token.DEFINE && t.spec.StrMode {
+			if r, ok := t.twoResultLib(x, rest); ok {
+				return r
+			}
 		}
 		// v, ok := m[k] on a package-level map literal that nothing modifies: a lookup in the emitted table
 		if len(x.Lhs) == 2 && len(x.Rhs) == 1 && x.Tok == token.DEFINE {
@@ -2210,6 +2369,12 @@ func assignedIn(list []ast.Stmt) (assigned map[string]bool, declared map[string]
 							assigned[id.Name] = true
 						}
 					}
+					// x.f = v changes the struct variable x
+					if sel, ok := l.(*ast.SelectorExpr); ok && a.Tok != token.DEFINE {
+						if id, ok := sel.X.(*ast.Ident); ok {
+							assigned[id.Name] = true
+						}
+					}
 				}
 			case *ast.IncDecStmt:
 				if id, ok := a.X.(*ast.Ident); ok {
@@ -2325,10 +2490,17 @@ func (t *tr) rangeLoop(x *ast.RangeStmt, rest []ast.Stmt) string {
 	if other != "" {
 		fail("%s: the body of `%s` contains %s", where, strings.SplitN(show(x), "{", 2)[0], other)
 	}
+	// the VALUE variable may be assigned in the body: since Go 1.22 every iteration has its own copy, the assignment
+	// lives until the end of the iteration (a `let` in the body); it is neither carried nor does it touch the sequence.
+	// That needs a list-of-strings source; for strings and maps the refusal stays.
+	valAssignable := isList && valName != "" && !declared[valName] && t.goVersionAtLeast122()
 	for _, n := range []string{src.Name, keyName, valName} {
-		if n != "" && (assigned[n] || declared[n]) {
+		if n != "" && (assigned[n] || declared[n]) && !(n == valName && valAssignable) {
 			fail("%s: the loop body assigns or redeclares `%s` (the ranged value or a range variable)", where, n)
 		}
+	}
+	if valAssignable {
+		delete(assigned, valName)
 	}
 	for n := range declared {
 		if t.locals[n] || t.plean[n] != "" {
@@ -2348,6 +2520,9 @@ func (t *tr) rangeLoop(x *ast.RangeStmt, rest []ast.Stmt) string {
 			carried = append(carried, n)
 			delete(assigned, n)
 		}
+	}
+	for n := range declared {
+		delete(assigned, n) // declared in the body (shadowing of outer names was refused above): local to one iteration
 	}
 	for n := range assigned {
 		if n != "_" {
